@@ -98,6 +98,7 @@ def draw_features(ctx, base=None, allow=("subtypes", "constants", "neg", "equali
     feat["join_names"] = c.draw(6) == 0  # object names whose joins collide (x, x_x, x-x, ...)
     feat["nested_numeric"] = c.draw(2) == 0  # fluent-against-constant comparisons inside nested conditions
     feat["dense_quant"] = c.draw(4) == 0  # several quantified conditions (often shadowing a parameter) per action
+    feat["object_params"] = c.draw(3) == 0  # 'object' itself as a parameter / predicate-slot type
     feat["tiny_offsets"] = True  # ... whose constants may differ only beyond the 4th decimal (not where a domain is exported)
     feat["max_objects"] = 3 + c.draw(3) if c.draw(8) else 6 + c.draw(3)
     feat["max_actions"] = 1 + c.draw(3) if c.draw(8) else 4 + c.draw(2)
@@ -119,7 +120,10 @@ class World:
             ctx.probes["domain_with_near_duplicate_sibling_conditions"] += 1
         self.objs = G.all_objects(self.D, self.P)
         lvl = ctx.s("cfg").draw(3) if noise_level is None else noise_level
-        raw = G.render_domain(self.D, child_first=feat.get("child_first_types", False))
+        # the requirements line: typed domains are also written with a line that does not mention :typing
+        reqs = [(":typing",), (":typing",), (":strips", ":typing"), (":adl",), (":strips",),
+                (":strips", ":equality", ":negative-preconditions", ":numeric-fluents")][ctx.s("cfg").draw(6)]
+        raw = G.render_domain(self.D, child_first=feat.get("child_first_types", False), requirements=reqs)
         self.dom_text = G.noise(raw, ctx.s("workload"), lvl) if lvl else raw
         self.dom_text_plain = raw
 
